@@ -39,6 +39,11 @@ def generate(G):
                  tier=tier, kind="refusal", skeleton={"ranks": [ra, rb], "extents": "symbolic in 1..=65536", "side": "incompatible => refused"},
                  domains="dimensions symbolic")
 
+    # ---- full-width anchors (every pair of f64/f32 bit patterns) on shape [1]; div does not finish and is not claimed
+    for op, tier in (("Add", "thorough"), ("Sub", "thorough"), ("Mul", "experimental")):
+        G.ob("c04_full_%s" % op.lower(), "C04", "fullwidth", "c04::values_full(s, c04::Ew::%s)" % op, unwind=7, tier=tier, heavy=(op == "Mul"),
+             f32=False, skeleton={"op": op, "shape": [1], "values": "every bit pattern of both operands"}, domains="full width")
+
     # ---- quick core: one pair per structural class for add, a handful for the others
     core_add = [
         ([2, 3], [2, 3]),                                  # equal
